@@ -138,6 +138,7 @@ def run_case(sh, s, d, case):
     dr.oids = dr.oids[:5]
     nops = rnd.choice([6, 10, 16, 24])
     acc = ref = 0
+    packed_T = None
     try:
         for i in range(nops):
             k = rnd.choice(OPS)
@@ -157,6 +158,9 @@ def run_case(sh, s, d, case):
                 dr.spec = adopt_spec(dr.st)
                 dr.specs_after.append(dr.spec.copy())
                 dr.trace.append('pack')
+                # a packed storage gives no guarantee for snapshots before the pack time (revision chains are cut):
+                # from now on only queries above the latest pack time are compared
+                packed_T = max(packed_T or T, T)
                 dr.features.add('pack')
                 continue
             if k.startswith('undo'):
@@ -180,7 +184,7 @@ def run_case(sh, s, d, case):
                 else:
                     acc += 1
                     sh.count('undo_accepted')
-                n, df = battery(dr.st, dr.spec, 'file', counter=sh.count)
+                n, df = battery(dr.st, dr.spec, 'file', counter=sh.count, min_tid=packed_T)
                 if df:
                     sh.violation('c06:%s-after-%s-differs-from-undo-model' % (df[0][0][0], 'refused-undo' if desc == 'undo-refused' else 'undo'),
                                  {'first': df[0], 'trace': dr.trace}, case)
